@@ -953,10 +953,13 @@ SRC_WORDS = {"cli": "the command line", "env": "GUNICORN_CMD_ARGS", "file": "the
              "default": "the built-in default"}
 
 
-def _raw_env_acted(run, prefix, when, devs, claims, cell, shown, obs, o=None):
-    """A deviating setting has exactly the value that only the file's raw_env entry GUNICORN_CMD_ARGS=... names: what
-    the master exports for the application was read back as a configuration source.  -> True if a violation was filed."""
-    hit = [d for d in devs if claims.get(d[0]) == d[3]]
+def _raw_env_acted(run, prefix, when, devs, claims, cell, shown, obs, model, baseline, o=None):
+    """A deviating setting has exactly the value that ONLY the file's raw_env entry GUNICORN_CMD_ARGS=... names (no
+    source says it in any version of the history, nor is it the built-in default): what the master exports for the
+    application was read back as a configuration source.  -> True if a violation was filed."""
+    def said_elsewhere(sname):
+        return {nf for ver in model["versions"] for nf in ver["mentions"].get(sname, {}).values()} | {baseline[sname]}
+    hit = [d for d in devs if claims.get(d[0]) == d[3] and d[3] not in said_elsewhere(d[0])]
     if not hit:
         return False
     sname, exp, wsrc, got = sorted(hit, key=lambda d: (SOURCES + ("default",)).index(d[2]))[0]
@@ -1054,7 +1057,7 @@ def judge_history(run, cell, recipe, model, baseline, obs, MB):
         return
     wm, wo = deviations(obs["values"], vers[0]["mentions"], model, baseline)
     if _raw_env_acted(run, "", "at start-up (observed on the master, after it exported raw_env)", wm + wo, claims,
-                      cell, shown, obs):
+                      cell, shown, obs, model, baseline):
         return
     if wm or wo:
         sname, exp, wsrc, got = (wm or wo)[0]
@@ -1129,7 +1132,8 @@ def judge_history(run, cell, recipe, model, baseline, obs, MB):
                               obs.get("stderr_all", "").strip()[-200:]), cell)
             return
         wm, wo = deviations(o["values"], ver["mentions"], model, baseline)
-        if _raw_env_acted(run, "reload/", "after reload %d" % i, wm + wo, claims, cell, shown, obs, o):
+        if _raw_env_acted(run, "reload/", "after reload %d" % i, wm + wo, claims, cell, shown, obs, model,
+                          baseline, o):
             return
         for sname, exp, wsrc, got in wm + wo:
             before = expected(sname, dict(model, mentions=prev["mentions"]), baseline)[0]
